@@ -7,6 +7,7 @@ import PqV.Drv.RowFilter
 import PqV.Drv.Stats
 import PqV.Drv.Part
 import PqV.Drv.Merge
+import PqV.Drv.Thrift
 /-
   `pqv` — line-protocol driver over the executable definitions of PqV (Spec, Impl, Gen).
   One request per line on stdin, one reply per line on stdout.  Pure per line.
@@ -30,6 +31,7 @@ def handleLine (line : String) : String :=
     | "stats" => handleStats op a
     | "part" => handlePart op a
     | "merge" => handleMerge op a
+    | "thrift" => handleThrift op a
     | _ => s!"err unknown-stream {stream}"
   | _ => "err bad-request"
 
